@@ -71,6 +71,20 @@ def cases(tier, seed):
             kwargs["optimizeCFF"] = 0      # (with charstring optimisation on: known finding F-C04-2, witnessed by a fixed case below)
         out.append({"cid": f"c04-{seed}-{k}", "lib": rng.choice(["ufoLib2", "defcon"]), "flavor": flavor, "ufo": ufo,
                     "vertical": vertical, "kwargs": kwargs})
+    # CFF fonts in which some glyph is exactly as wide as nominalWidthX (and not as defaultWidthX): explicit Private-dict widths,
+    # and width multisets for which fontTools' optimiser picks such a pair
+    rng3 = random.Random(seed * 122949829 + 40005)
+    for k in range(10 if tier == "quick" else 120):
+        ws = [[500, 500, 500, 600, 300, 820], [700, 700, 500, 400], [500, 600, 600, 450]][k % 3] if k % 2 else [rng3.choice([300, 400, 500, 600]) for _ in range(5)]
+        names = rng3.sample(gen.NAMES, len(ws))
+        glyphs = {nm: {"cs": [_square(10, 0, 100 + 10 * i)] if i % 3 else [], "comps": [], "anchors": [], "w": w * P, "h": 0, "u": [0x41 + i]}
+                  for i, (nm, w) in enumerate(zip(names, ws))}
+        info = {"unitsPerEm": 1000, "ascender": 800, "descender": -200}
+        if k % 2 == 0:
+            info["postscriptDefaultWidthX"], info["postscriptNominalWidthX"] = ws[0], ws[1] if ws[1] != ws[0] else ws[0] + 100
+            glyphs[names[2]]["w"] = info["postscriptNominalWidthX"] * P
+        out.append({"cid": f"c04-{seed}-nw{k}", "lib": rng3.choice(["ufoLib2", "defcon"]), "flavor": "cff", "vertical": False,
+                    "kwargs": {"optimizeCFF": k % 3}, "ufo": {"glyphs": glyphs, "info": info}})
     # TrueType glyph programs: simple and composite glyphs carry programs of different lengths (the longest on either kind)
     rng2 = random.Random(seed * 122949829 + 40004)
     for k in range(12 if tier == "quick" else 150):
